@@ -279,6 +279,9 @@ def permute_maps(calls, rnd):
 def check_c13(rep, tier, seed, wd, replay):
     import hashlib
     import random
+    import time
+    stage = {}
+    t0 = time.time()
     n = 120 if tier == "quick" else 2000
     g0 = gw.Gen(seed * 1000 + 13)
     rnd = random.Random(seed)
@@ -293,6 +296,7 @@ def check_c13(rep, tier, seed, wd, replay):
         cases.append({"id": "c13_%d_b" % i, "o": o, "calls": permute_maps(calls, rnd), "table_from": "c13_%d_a" % i})
         cases.append({"id": "c13_%d_c" % i, "o": o, "calls": permute_maps(calls, rnd), "table_from": "c13_%d_a" % i})
     go, model, distinct, hist, nd = writer_corr(rep, cases, wd, ["new", "calls", "writes"], set())
+    stage["correspondence"] = round(time.time() - t0, 1); t0 = time.time()
     # oracle: permuted insertion orders give byte-identical output on the implementation
     nperm = 0
     for i in range(n):
@@ -329,10 +333,82 @@ def check_c13(rep, tier, seed, wd, replay):
                     if f[2] != want:
                         c = [x for x in subset if x["id"] == cid][0]
                         rep.add_violation("oracle", "case %s: repetition %s under GOMAXPROCS=%d (16 goroutines) produced different output" % (cid, f[1], procs), cw.case_replay(c))
-    cov = summarize(rep, len(cases) + sched_runs, len(distinct),
-                    "each workload written with 3 different insertion orders of every metadata map (byte-identical output required, and equal to the model's); a subset re-executed 3x sequentially plus 16 goroutines concurrently under GOMAXPROCS 1,2,4,16 (hash of bytes+segmentation must equal the single run)",
+    stage["repetition"] = round(time.time() - t0, 1); t0 = time.time()
+    # independent writers of DIFFERENT workloads running at the same time (state shared between writers - pools,
+    # package-level scratch - only shows when the concurrent writers serialise different content)
+    conc = [(c["id"], gw.script_lines(c["o"], c["calls"], None)) for c in cases[::3]]
+    for i in range(16 if tier == "quick" else 64):
+        o = g0.wopts()
+        calls = [["H", b"p", b"l"]]
+        for j in range(30):
+            calls.append(["C", j + 1, 0, b"t%d" % j, b"e", g0.kv(6) or [(b"k", b"v%d" % j)]])
+            calls.append(["D", b"m%d" % j, g0.kv(6) or [(b"a", b"b" * (j + 1))]])
+        calls.append(["X"])
+        conc.append(("c13_maps_%d" % i, gw.script_lines(o, calls, None)))
+    conc_runs = 0
+    for procs in ((4, 16) if tier == "quick" else (2, 4, 16)):
+        env = dict(os.environ, GOMAXPROCS=str(procs), VERIF_REPS="2" if tier == "quick" else "20", VERIF_GOROUTINES="16")
+        raw, crashed = cm.run_sharded(os.path.join(cm.BUILD, "impl"), "writeconc", conc, wd, "conc%d" % procs, nshards=1, extra_env=env)
+        for cmd, rc, err in crashed:
+            rep.add_violation("executor-crash", "%s exited %s: %s" % (cmd, rc, err), [], failing_input=False)
+        byid = dict(conc)
+        for cid, lines in raw.items():
+            for l in lines:
+                m = re.match(r"conc ref=(\S+) runs=(\d+) differing=(\d+)", l)
+                if m:
+                    conc_runs += int(m.group(2))
+                    if int(m.group(3)):
+                        rep.add_violation("oracle", "case %s: %s of %s concurrent runs (16 goroutines writing different workloads, GOMAXPROCS=%d) produced output different from the same calls made alone"
+                                          % (cid, m.group(3), m.group(2), procs), ["# mode writeconc: run together with the other cases of the script", "case " + cid] + byid[cid] + ["end"])
+    stage["concurrent"] = round(time.time() - t0, 1); t0 = time.time()
+    # the same, with read-back by independent lexers and readers, under the race detector
+    import subprocess
+    race_reports = 0
+    okr, msg = cm.build_harness_race()
+    if not okr:
+        rep.add_violation("harness-build", "race-detector build of the harness failed: " + msg[-1500:], [], failing_input=False)
+    else:
+        spath = os.path.join(wd, "race.script")
+        # the race detector costs 5-20x in time and memory: the map-heavy workloads plus the smallest generated ones
+        small = sorted(conc[:len(cases) // 3], key=lambda c: sum(len(l) for l in c[1]))[: (10 if tier == "quick" else 120)]
+        rconc = small + (conc[len(cases) // 3:][:8] if tier == "quick" else conc[len(cases) // 3:])
+        with open(spath, "w") as f:
+            for cid, lines in rconc:
+                f.write("case %s\n%s\nend\n" % (cid, "\n".join(lines)))
+        env = dict(os.environ, GOMAXPROCS="8", VERIF_REPS="1" if tier == "quick" else "5", VERIF_GOROUTINES="16", VERIF_CONC_READ="1",
+                   GORACE="exitcode=0 halt_on_error=0")
+        p = subprocess.run([os.path.join(cm.BUILD, "impl_race"), "writeconc", spath], stdout=subprocess.PIPE, stderr=subprocess.PIPE, env=env, timeout=3000)
+        errtxt = p.stderr.decode(errors="replace")
+        if p.returncode != 0:
+            rep.add_violation("executor-crash", "impl_race writeconc exited %s: %s" % (p.returncode, errtxt[-1500:]), [], failing_input=False)
+        races = [b for b in errtxt.split("==================") if "WARNING: DATA RACE" in b]
+        lib_races = [b for b in races if "foxglove/mcap/go/mcap" in b]
+        race_reports = len(lib_races)
+        seen = set()
+        for b in lib_races:
+            frames = re.findall(r"^\s+(github.com/foxglove/mcap/go/mcap\.\S+)\(\)\n\s+(\S+)", b, re.M)
+            key = tuple(frames[:2])
+            if key in seen:
+                continue
+            seen.add(key)
+            rep.add_violation("oracle", "data race between independent writers/readers (16 goroutines, race detector): " +
+                              "; ".join("%s %s" % (fn, os.path.basename(loc)) for fn, loc in frames[:4]),
+                              ["# mode writeconc under -race (VERIF_CONC_READ=1): run the whole script; report:"] + ["# " + l for l in b.strip().splitlines()[:40]] +
+                              ["case %s\n%s\nend" % (cid, "\n".join(lines)) for cid, lines in rconc[-3:]])
+        raw, _ = cm.parse_obs(p.stdout.decode(errors="replace"))
+        for cid, lines in raw.items():
+            for l in lines:
+                m = re.match(r"conc ref=(\S+) runs=(\d+) differing=(\d+)", l)
+                if m:
+                    conc_runs += int(m.group(2))
+                    if int(m.group(3)):
+                        rep.add_violation("oracle", "case %s: %s of %s concurrent write+read-back runs (race build) differ from the same calls made alone" % (cid, m.group(3), m.group(2)),
+                                          ["# mode writeconc VERIF_CONC_READ=1", "case " + cid] + dict(rconc)[cid] + ["end"])
+    stage["race"] = round(time.time() - t0, 1)
+    cov = summarize(rep, len(cases) + sched_runs + conc_runs, len(distinct),
+                    "each workload written with 3 different insertion orders of every metadata map (byte-identical output required, and equal to the model's); a subset re-executed 3x sequentially plus 16 goroutines concurrently under GOMAXPROCS 1,2,4,16 (hash of bytes+segmentation must equal the single run); all workloads plus map-heavy ones written concurrently by 16 goroutines in different rotations (independent writers of different content overlapping) under GOMAXPROCS 2,4,16; the same with read-back through independent lexers/readers in a race-detector build (any report with a go/mcap frame is a violation)",
                     [cw.case_replay(c) for c in cases[:2]],
-                    {"input_distribution": hist, "permutation_pairs": nperm, "schedule_runs": sched_runs, "disagreements": nd})
+                    {"input_distribution": hist, "permutation_pairs": nperm, "schedule_runs": sched_runs, "concurrent_heterogeneous_runs": conc_runs, "race_detector_reports_in_library": race_reports, "stage_seconds": stage, "disagreements": nd})
     return cov, ["goroutine schedules are sampled by the Go runtime, not enumerated (partial for the schedule quantifier)"]
 
 
